@@ -633,10 +633,11 @@ func isOpaquePred(g *ssa.Function) bool {
 	if g.Signature.Recv() != nil && len(params) > 0 {
 		params = params[1:]
 	}
-	for _, p := range params {
-		if b, ok := p.Type().Underlying().(*types.Basic); ok && (b.Kind() == types.Int32 || b.Kind() == types.String || b.Kind() == types.UntypedRune) {
-			return true
-		}
+	if len(params) != 1 {
+		return false
+	}
+	if b, ok := params[0].Type().Underlying().(*types.Basic); ok && (b.Kind() == types.Int32 || b.Kind() == types.String || b.Kind() == types.UntypedRune) {
+		return true
 	}
 	return false
 }
